@@ -292,6 +292,24 @@ def relto_checks(ctx, c, rep, rdclass, rdtype, tname, text, origin):
     return True
 
 
+def rejected_wire_corr(ctx, c, rep, rdclass, rdtype, tname, wire):
+    """rdata that from_wire rejects: its generic text `\\# n hex` must be rejected too, by the code and by the model's
+    decoder (ties the validation half of the model's from_wire, e.g. the GPOS float-string check)"""
+    text = f"\\# {len(wire)} {wire.hex()}"
+    try:
+        r = dns.rdata.from_text(rdclass, rdtype, text)
+    except dns.exception.DNSException:
+        r = None
+    except Exception as e:
+        _fail(ctx, f"C05/from_text/foreign-exception/{tname}/{type(e).__name__}", f"from_text({tname}, {text!r}) raised {e!r}", rep)
+        return
+    if r is not None:
+        _fail(ctx, f"C05/generic-form/accepts-what-from_wire-rejects/{tname}",
+              f"{tname}: from_wire rejects {wire.hex()} but from_text accepts {text!r} as {r.to_text()!r}", rep)
+        return
+    model_corr_fromtext(ctx, c, tname, text, None, True, r)
+
+
 def raw_control_in(text, style):
     """None, or a description of the first raw control character of a printed rdata text"""
     allowed = set(style.hex_chunk_separator) | set(style.base64_chunk_separator) | {" "}
@@ -500,6 +518,8 @@ def eval_rt(ctx: Ctx, c: dict):
         ctx.count("gen.rejected-by-from_wire")
         if not isinstance(e, dns.exception.DNSException):
             _fail(ctx, f"C05/from_wire/foreign-exception/{tname}/{type(e).__name__}", f"from_wire({tname}, {wire.hex()}) raised {e!r}", rep)
+            return
+        rejected_wire_corr(ctx, c, rep, rdclass, rdtype, tname, wire)
         return
     ctx.count("type." + tname)
     st = c.get("style", {})
@@ -695,16 +715,7 @@ def eval_generic(ctx: Ctx, c: dict):
         rd = dns.rdata.from_wire(rdclass, rdtype, wire, 0, len(wire), origin if c.get("wire_origin") else None)
     except Exception:
         ctx.count("gen.rejected-by-from_wire")
-        # the generic text of rdata that from_wire rejects must be rejected too, by the code and by the model's decoder
-        text = f"\\# {len(wire)} {wire.hex()}"
-        try:
-            r = dns.rdata.from_text(rdclass, rdtype, text)
-        except dns.exception.DNSException:
-            r = None
-        except Exception as e:
-            _fail(ctx, f"C05/from_text/foreign-exception/{tname}/{type(e).__name__}", f"from_text({tname}, {text!r}) raised {e!r}", rep)
-            return
-        model_corr_fromtext(ctx, c, tname, text, None, True, r)
+        rejected_wire_corr(ctx, c, rep, rdclass, rdtype, tname, wire)
         return
     worigin = origin if origin is not None else dns.name.root
     try:
